@@ -728,8 +728,10 @@ func Run(c *hx.Ctx) error {
 			runFields(c, g, g.fieldList())
 		case k < 69:
 			runSorts(c, g)
-		case k < 71:
+		case k < 70:
 			runSource(c, g)
+		case k < 71:
+			runPool(c, g)
 		case k < 72:
 			runStmtOpts(c, g)
 		case k < 80:
